@@ -7,6 +7,7 @@ import StoneVerif.Lemmas.RtCompatEdits
 import StoneVerif.Lemmas.RtCompatRename
 import StoneVerif.Props.C06
 import StoneVerif.Lemmas.RtRoundTrip
+import StoneVerif.Lemmas.RtCompatWire2
 /-!
 Property theorems for C07: backwards-compatible changes (docs/evolve_spec.rst) keep peers interoperable.
 
@@ -48,9 +49,8 @@ theorem forward_compat_msg (E : Ext) {ρ : Rho} {A B : Env} {tA tB : PTy} (hs : 
 
 /-- FORWARD COMPATIBILITY, wire form.  `hrt` is the round trip of the newer spec on its own message (C04 / C05 for B:
 `decode (wire v)` succeeds); given that, the older spec reads the message as the A-view of what B itself reads back.
-Full statement of DESIGN.md (`decode E A [] false tA (wire E B tB v) = .ok (view ρ A tA v)` from `validB` / `normalB`)
-= this theorem + C04's round-trip theorem for B (`w` equal to `v` up to `pyEq`), which is not available yet: hence
-`_partial`. -/
+Kept for reference (it needs no hypothesis on the value); the full statement of DESIGN.md, with `hrt` discharged by C04's
+round-trip theorem for B, is `forward_compat` / `forward_compat_eq` below. -/
 theorem forward_compat_partial (E : Ext) {ρ : Rho} {A B : Env} {tA tB : PTy} (hs : subB ρ A B tA tB = true)
     (hA : envWF A = true) (hB : envWF B = true) (hxA : envWFX A = true) (huB : envWFU B = true)
     (hw : tyWF A tA = true) (v w : PyVal) (sB : Bool)
@@ -130,9 +130,9 @@ theorem backward_compat_msg (E : Ext) {ρ : Rho} {A B : Env} {tA tB : PTy} (hs :
 
 /-- BACKWARD COMPATIBILITY, wire form.  `hrt`: the older spec reads its own message back (C04 / C05 for A); `ht`, `hn`:
 the message is in encoder form and uses no Void-to-required tag — both decidable, evaluated by the driver on the real
-encoding of every case (`compat.tight`, `compat.nvrdoc`).  Full statement of DESIGN.md (from `validB E A tA v` and
-`noVoidToRequired ρ A B tA v`, conclusion up to `pyEq`) = this theorem + A's round trip (C04) + `tightDoc (wire v)` and
-`nvrDoc (wire v) = noVoidToRequired v` for valid `v` (an induction over `wire`, not done): hence `_partial`. -/
+encoding of every case (`compat.tight`, `compat.nvrdoc`).  Kept for reference; the full statement of DESIGN.md (from
+`validB E A tA v` and `noVoidToRequired ρ A B tA v`) is `backward_compat` / `backward_compat_eq` below, which discharge
+`hrt` by C04's round trip for A, `ht` by `wire_tight` and `hn` by `wire_nvr` (the induction over `wire`). -/
 theorem backward_compat_partial (E : Ext) {ρ : Rho} {A B : Env} {tA tB : PTy} (hs : subB ρ A B tA tB = true)
     (hA : envWF A = true) (hB : envWF B = true) (hxA : envWFX A = true) (huB : envWFU B = true)
     (hw : tyWF A tA = true) (v w : PyVal) (sA strict : Bool)
@@ -140,6 +140,54 @@ theorem backward_compat_partial (E : Ext) {ρ : Rho} {A B : Env} {tA tB : PTy} (
     (ht : tightDoc A tA (wire E A tA v) = true) (hn : nvrDoc ρ A B tA (wire E A tA v) = true) :
     decode E B [] strict tB (wire E A tA v) = .ok (lift ρ B tB w) :=
   backward_compat_msg E hs hA hB hxA huB hw _ sA strict w ht hn hrt
+
+/-- THE SENDER'S OWN MESSAGE IS IN ENCODER FORM: for a valid value (in C04's domain) the wire form contains nothing the
+sender's spec does not know, Void tags bare — the hypothesis `ht` of `backward_compat_partial`, now a theorem. -/
+theorem wire_tight (E : Ext) {A : Env} (hA : envWF A = true) (tA : PTy) (v : PyVal)
+    (htA : tyWF A tA = true) (hv : validB E A tA v = true) (hn : normalB A tA v = true)
+    (hvw : valWF E A tA v = true) (hamb : ambiguousEmpty A tA v = false) :
+    tightDoc A tA (wire E A tA v) = true :=
+  tightDoc_wire hA tA v ⟨htA, hv, hn, hvw, hamb⟩
+
+/-- ... and on it the message-level `nvrDoc` (hypothesis `hn` of `backward_compat_partial`) says exactly what the
+value-level `noVoidToRequired` of DESIGN.md says. -/
+theorem wire_nvr (E : Ext) (ρ : Rho) {A : Env} (B : Env) (hA : envWF A = true) (tA : PTy) (v : PyVal)
+    (htA : tyWF A tA = true) (hv : validB E A tA v = true) (hn : normalB A tA v = true)
+    (hvw : valWF E A tA v = true) (hamb : ambiguousEmpty A tA v = false) :
+    nvrDoc ρ A B tA (wire E A tA v) = noVoidToRequired ρ A B tA v :=
+  nvrDoc_wire ρ B hA tA v ⟨htA, hv, hn, hvw, hamb⟩
+
+/-- BACKWARD COMPATIBILITY, wire form, full statement.
+A peer on the older spec `A` serialises a valid value `v` of type `tA` in which no union value sits on a tag that is Void
+in `A` and has a non-nullable type in `B` (`noVoidToRequired`: the one direction the guide does not promise); a peer on the
+newer spec `B` — strict or lenient — accepts the message and builds `canon A tA v` (what A's own decoder returns for it,
+equal to `v` under Python `==`: C04) seen under `B`: same slots, instances of B's classes, the new fields unset.
+Hypotheses: those of `backward_compat_msg` on the pair of specs, those of C04's round-trip theorem on the sender's side,
+and `noVoidToRequired`; all decidable and evaluated on real data by the harness, except `ExtLaws`. -/
+theorem backward_compat (E : Ext) {ρ : Rho} {A B : Env} {tA tB : PTy} (hs : subB ρ A B tA tB = true)
+    (hA : envWF A = true) (hB : envWF B = true) (hxA : envWFX A = true) (huB : envWFU B = true)
+    (hrtA : envRT A = true) (hE : ExtLaws E A) (v : PyVal)
+    (htA : tyWF A tA = true) (hv : validB E A tA v = true) (hn : normalB A tA v = true)
+    (hvw : valWF E A tA v = true) (hamb : ambiguousEmpty A tA v = false)
+    (hnv : noVoidToRequired ρ A B tA v = true) (strict : Bool) :
+    decode E B [] strict tB (wire E A tA v) = .ok (lift ρ B tB (canon A tA v)) :=
+  backward_compat_msg E hs hA hB hxA huB htA _ false strict _
+    (wire_tight E hA tA v htA hv hn hvw hamb)
+    (by rw [wire_nvr E ρ B hA tA v htA hv hn hvw hamb]; exact hnv)
+    (decode_wire_canon hA hrtA hE false tA v ⟨htA, hv, hn, hvw, hamb⟩)
+
+/-- ... with the equality to the original made explicit, as DESIGN.md states the property. -/
+theorem backward_compat_eq (E : Ext) {ρ : Rho} {A B : Env} {tA tB : PTy} (hs : subB ρ A B tA tB = true)
+    (hA : envWF A = true) (hB : envWF B = true) (hxA : envWFX A = true) (huB : envWFU B = true)
+    (hrtA : envRT A = true) (hE : ExtLaws E A) (v : PyVal)
+    (htA : tyWF A tA = true) (hv : validB E A tA v = true) (hn : normalB A tA v = true)
+    (hvw : valWF E A tA v = true) (hamb : ambiguousEmpty A tA v = false)
+    (hnv : noVoidToRequired ρ A B tA v = true) :
+    ∃ v', pyEq E A v v' = true ∧ (∀ sA, decode E A [] sA tA (wire E A tA v) = .ok v') ∧
+      ∀ sB, decode E B [] sB tB (wire E A tA v) = .ok (lift ρ B tB v') :=
+  ⟨canon A tA v, RoundTrip.pyEq_canon hA hrtA hE tA v ⟨htA, hv, hn, hvw, hamb⟩,
+    fun sA => decode_wire_canon hA hrtA hE sA tA v ⟨htA, hv, hn, hvw, hamb⟩,
+    fun sB => backward_compat E hs hA hB hxA huB hrtA hE v htA hv hn hvw hamb hnv sB⟩
 
 /-- What strict decoding accepts contains nothing unknown (one environment; documents as `json.loads` produces them:
 no repeated keys). -/
@@ -373,6 +421,50 @@ example : validB E0 envB tUs vB' = true ∧ normalB envB tUs vB' = true ∧ valW
       .ok (.list [.union "ns.U" "s" (.struct "ns.S" [("a", .int 1)]), .union "ns.U" "v" .none]) :=
   ⟨by decide +kernel, by decide +kernel, by decide +kernel, by decide +kernel, by decide +kernel,
     by with_unfolding_all rfl⟩
+
+/-- a list of union values of the older spec: a struct member and a Void tag -/
+def vA : PyVal := .list [.union "ns.U" "s" (.struct "ns.S" [("a", .int 1)]), .union "ns.U" "v" .none]
+
+/-- the hypotheses of `backward_compat` hold of it -/
+theorem vA_good : envRT envA = true ∧ tyWF envA tUs = true ∧
+    validB E0 envA tUs vA = true ∧ normalB envA tUs vA = true ∧ valWF E0 envA tUs vA = true ∧
+    ambiguousEmpty envA tUs vA = false ∧ noVoidToRequired rho0 envA envB tUs vA = true := by decide +kernel
+
+/-- `backward_compat` instantiated ... -/
+example (strict : Bool) :
+    decode E0 envB [] strict tUs (wire E0 envA tUs vA) = .ok (lift rho0 envB tUs (canon envA tUs vA)) :=
+  backward_compat E0 vB_good.1 (by decide +kernel) (by decide +kernel) (by decide +kernel) (by decide +kernel)
+    vA_good.1 E0_lawsA vA vA_good.2.1 vA_good.2.2.1 vA_good.2.2.2.1 vA_good.2.2.2.2.1 vA_good.2.2.2.2.2.1
+    vA_good.2.2.2.2.2.2 strict
+/-- ... and its conclusion is not trivial: the newer peer builds an instance of the renamed class `ns.T` with the added
+fields unset (reading `c` gives the declared default through `attrGet`) -/
+example :
+    wire E0 envA tUs vA = .arr [.obj [(".tag", .str "s"), ("a", .int 1)], .obj [(".tag", .str "v")]] ∧
+    lift rho0 envB tUs (canon envA tUs vA) =
+      .list [.union "ns.U" "s" (.struct "ns.T" [("a", .int 1)]), .union "ns.U" "v" .none] := ⟨rfl, rfl⟩
+/-- the same through a struct holding a union and through the enumerated subtypes -/
+example : ∀ strict,
+    (decode E0 envB [] strict (.tree {} "ns.R") (wire E0 envA (.tree {} "ns.R") (.struct "ns.F" [("a", .int 2), ("n", .str "y")])) =
+      .ok (.struct "ns.F" [("a", .int 2), ("n", .str "y")])) ∧
+    tightDoc envA (.tree {} "ns.R") (wire E0 envA (.tree {} "ns.R") (.struct "ns.F" [("a", .int 2), ("n", .str "y")])) = true := by
+  intro strict; cases strict <;> exact ⟨by with_unfolding_all rfl, by decide +kernel⟩
+
+/-- `wire_tight` / `wire_nvr` on the pair: the two message-level predicates evaluate as the theorems say, `nvrDoc` both ways -/
+example : tightDoc envA tUs (wire E0 envA tUs vA) = true ∧ nvrDoc rho0 envA envB tUs (wire E0 envA tUs vA) = true ∧
+    nvrDoc rho0 envA envB (.union {} "ns.U") (wire E0 envA (.union {} "ns.U") (.union "ns.U" "w" .none)) = false ∧
+    noVoidToRequired rho0 envA envB (.union {} "ns.U") (.union "ns.U" "w" .none) = false := by decide +kernel
+
+/-- `noVoidToRequired` is necessary: `w` is Void in `envA` and `Int32` in `envB` (a listed change, and harmless forwards);
+the older peer's `U.w` is a valid value whose message the newer peer refuses, in both modes.  (The documented limit of
+"giving a Void tag a type", not a defect.) -/
+theorem void_to_required_witness :
+    let v := PyVal.union "ns.U" "w" .none
+    let t := PTy.union {} "ns.U"
+    subB rho0 envA envB t t = true ∧ validB E0 envA t v = true ∧ normalB envA t v = true ∧ valWF E0 envA t v = true ∧
+    ambiguousEmpty envA t v = false ∧ noVoidToRequired rho0 envA envB t v = false ∧
+    (∀ strict, (match decode E0 envB [] strict t (wire E0 envA t v) with
+      | .ok _ => false
+      | .error e => e.isVerr) = true) := by decide +kernel
 
 /-- each listed edit, alone, yields `compatEnv` (the harness additionally evaluates `compatEnv` on every generated pair) -/
 def envS (fields : List FieldDef) : Env := ⟨[⟨"ns.S", [⟨"ns.S", fields⟩], none, false⟩], []⟩
